@@ -110,6 +110,18 @@ func runLimitsMode() {
 			o.dictSize = []uint{200, 600, 2000}[r.Intn(3)]
 			stats["limits-flush-every-write"]++
 		}
+		if i%6 == 2 {
+			// the restart FLAG alone decides: RestartDictionaries configured for every frame, no
+			// (or a far) limit, Flush calls in the middle of the stream and values that repeat
+			// across them. Writer and reader must reset their dictionaries at the same record
+			// boundaries, whichever of Write and Flush ends a frame.
+			o.flags = []pkg.FrameFlags{pkg.RestartDictionaries, pkg.RestartDictionaries | pkg.RestartCodecs,
+				pkg.RestartDictionaries | pkg.RestartCompression, 7}[r.Intn(4)]
+			o.frameSize = 0
+			o.dictSize = []uint{0, 0, 1 << 20}[r.Intn(3)]
+			p = genParams{writes: 8 + r.Intn(16), maxMut: 2, flushProb: 2 + r.Intn(3)}
+			stats["limits-flag-only-with-flush"]++
+		}
 		name := fmt.Sprintf("lim-%d", i)
 		note("case %s", name)
 		o.stat()
